@@ -333,6 +333,25 @@ func (self Value) getByPath(pathes ...Path) (Value, []int) {
 	}
 
 	for i, path := range pathes {
+		// the step must fit the shape the descriptor gives the current node
+		if desc == nil {
+			return errValue(meta.ErrInvalidParam, "GetByPath: node has no descriptor.", nil), address
+		}
+		switch path.t {
+		case PathFieldId, PathFieldName:
+			// NOTICE: after an index step desc is still the LIST descriptor, which carries the element's message
+			if desc.Message() == nil || desc.Type() == proto.MAP {
+				return errValue(meta.ErrDismatchType, fmt.Sprintf("GetByPath: %dth path needs a MESSAGE node, got %s", i, desc.Type()), nil), address
+			}
+		case PathIndex:
+			if desc.Type() != proto.LIST || desc.Elem() == nil {
+				return errValue(meta.ErrDismatchType, fmt.Sprintf("GetByPath: %dth path needs a LIST node, got %s", i, desc.Type()), nil), address
+			}
+		case PathStrKey, PathIntKey:
+			if desc.Type() != proto.MAP || desc.Key() == nil || desc.Elem() == nil {
+				return errValue(meta.ErrDismatchType, fmt.Sprintf("GetByPath: %dth path needs a MAP node, got %s", i, desc.Type()), nil), address
+			}
+		}
 		switch path.t {
 		case PathFieldId:
 			id := path.id()
